@@ -277,25 +277,31 @@ RealResult runReal(const Config &cfg, const RealInput &in) {
   for (auto &iv : cfg.initial) setInitial(*pool, iv.first, iv.second);
   std::ostringstream out, err;
 
-  // sources
-  static const std::string dir = scratchDir();
-  std::string homeBefore = getenv("HOME") ? getenv("HOME") : "";
-  setenv("HOME", dir.c_str(), 1);
+  // sources (process-global state: environment, files - only touched when a case uses them, so that the
+  // plain argv path can be run from several threads at once)
+  const bool useSources = in.haveFile || in.haveEnv;
   std::vector<std::string> argvWords = in.argv;
   if (argvWords.empty()) argvWords.push_back("prog");
   const std::string prog = baseName(argvWords[0]);
-  std::string paDir = dir + "/.progargs", paFile = paDir + "/" + prog + ".pa", argFile = dir + "/args.txt";
-  mkdir(paDir.c_str(), 0755);
-  unlink(paFile.c_str());
-  unlink(argFile.c_str());
-  if (in.haveFile) {
-    std::ofstream f(in.fileViaArgument ? argFile : paFile, std::ios::binary);
-    f << in.fileBody;
+  std::string homeBefore, paFile, argFile, envName = in.envName;
+  if (useSources) {
+    static const std::string dir = scratchDir();
+    homeBefore = getenv("HOME") ? getenv("HOME") : "";
+    setenv("HOME", dir.c_str(), 1);
+    const std::string paDir = dir + "/.progargs";
+    paFile = paDir + "/" + prog + ".pa";
+    argFile = dir + "/args.txt";
+    mkdir(paDir.c_str(), 0755);
+    unlink(paFile.c_str());
+    unlink(argFile.c_str());
+    if (in.haveFile) {
+      std::ofstream f(in.fileViaArgument ? argFile : paFile, std::ios::binary);
+      f << in.fileBody;
+    }
+    if (envName.empty()) { envName = prog; for (auto &c : envName) c = static_cast<char>(toupper(static_cast<unsigned char>(c))); }
+    unsetenv(envName.c_str());
+    if (in.haveEnv) setenv(envName.c_str(), in.envBody.c_str(), 1);
   }
-  std::string envName = in.envName;
-  if (envName.empty()) { envName = prog; for (auto &c : envName) c = static_cast<char>(toupper(static_cast<unsigned char>(c))); }
-  unsetenv(envName.c_str());
-  if (in.haveEnv) setenv(envName.c_str(), in.envBody.c_str(), 1);
 
   if (in.haveFile && in.fileViaArgument) {
     argvWords.insert(argvWords.begin() + 1, argFile);
@@ -348,10 +354,12 @@ RealResult runReal(const Config &cfg, const RealInput &in) {
   for (auto &iv : cfg.initial) res.state[iv.first] = extract(*pool, iv.first);
   res.out = out.str();
   res.err = err.str();
-  unsetenv(envName.c_str());
-  if (!homeBefore.empty()) setenv("HOME", homeBefore.c_str(), 1);
-  unlink(paFile.c_str());
-  unlink(argFile.c_str());
+  if (useSources) {
+    unsetenv(envName.c_str());
+    if (!homeBefore.empty()) setenv("HOME", homeBefore.c_str(), 1);
+    unlink(paFile.c_str());
+    unlink(argFile.c_str());
+  }
   return res;
 }
 
